@@ -13,6 +13,12 @@ theorem drainInv_init (nq ng max : Nat) : DrainInv (initState nq ng max) := by
     simp only [initState, State.qSt, List.getElem?_replicate] at hq
     split at hq <;> simp at hq
 
+theorem drainInv_initP (ps : List Bool) (ng max : Nat) : DrainInv (initStateP ps ng max) := by
+  refine ⟨?_, ?_, ?_⟩
+  · intro a f q hr; simp [initStateP, initState, State.pcAt, Pc.taskPair] at hr
+  · intro a f hb; simp [initStateP, initState, State.pcAt, Pc.wfpOf] at hb
+  · intro q f hq; rcases qSt_initP hq with h | h <;> cases h
+
 /-- new futures are appended: nothing changes for the existing ones -/
 theorem DrainInv.append_futs {s X : State} {l : List Fut} (h : DrainInv s) (hA : X.acts = s.acts) (hQ : X.qs = s.qs) (hF : X.futs = s.futs ++ l) : DrainInv X := by
   have hq : ∀ f q, s.futQ f = some q → X.futQ f = some q := by
@@ -132,6 +138,7 @@ theorem drainInv_ret {s s' : State} {a r : Nat} (h : DrainInv s) (hs : retStep s
 theorem drainInv_reachable {s : State} (hr : Reachable s) : DrainInv s := by
   induction hr with
   | init nq ng max => exact drainInv_init nq ng max
+  | initP ps ng max => exact drainInv_initP ps ng max
   | step l hprev hstep ih =>
     have hh := holderInv_reachable hprev
     obtain ⟨hw, _⟩ := fullInv_reachable hprev
